@@ -23,6 +23,7 @@ class Probe:
         self.compiles = 0
         self.local = threading.local()
         self.barrier = barrier
+        self.hold = None        # {'armed', 'entered': Event, 'release': Event}: see do_codegen below
         self.lock = threading.Lock()
 
     def stack(self):
@@ -52,8 +53,8 @@ class Probe:
                     probe.lookups.append((len(st), key[0], key[1], cached))
                     if st:
                         probe.children.setdefault(st[-1], []).append(key)
-                if cached:
-                    return orig(self_, keys_in)
+                # the lookup is pushed even when the key is cached: a changed __getitem__ may regenerate anyway,
+                # and that generation event must be attributed to this lookup
                 st.append(key)
                 try:
                     return orig(self_, keys_in)
@@ -67,6 +68,12 @@ class Probe:
 
         def do_codegen(codegen, *mvs):
             st = probe.stack()
+            hold = probe.hold
+            if hold is not None and hold.get('armed'):
+                # keep THIS thread inside code generation until released (another thread calls meanwhile)
+                hold['armed'] = False
+                hold['entered'].set()
+                hold['release'].wait(timeout=10)
             if probe.barrier is not None:
                 try:
                     probe.barrier.wait(timeout=0.3)
